@@ -18,14 +18,17 @@ RULE = ("existing queries (none, single, repeated keys, blank values, escapes, '
         "and after the call on the implementation; distinct = distinct (base, operation, argument)")
 
 BASES = ["http://h/p", "http://h/p?a=1", "http://h/p?a=1&b=2", "http://h/p?a=1&a=2&b=3", "http://h/p?a=1&b=2&a=3&c=&a=4", "http://h/p?a", "http://h/p?=1",
-         "http://h/p?a+b=c%20d&%C3%A9=%2B", "http://h/p?a=%FF&b=%26%3D", "/rel?x=1&y=2&x=3", "http://h/?a=1&a=2&b=1&b=old", "http://h/?a=1&b=1&a=2&b=2&c=3&a=3&b=3", "http://h/p?a=1&&b=2&", "http://h/p?k;=1;2", "?a=b=c"]
+         "http://h/p?a+b=c%20d&%C3%A9=%2B", "http://h/p?a=%FF&b=%26%3D", "/rel?x=1&y=2&x=3", "http://h/?a=1&a=2&b=1&b=old", "http://h/?a=1&b=1&a=2&b=2&c=3&a=3&b=3", "http://h/p?a=1&&b=2&", "http://h/p?k;=1;2", "?a=b=c",
+         # existing keys spelled differently from the way the serialiser would spell them (%20 for '+', a literal ';')
+         "http://h/p?a%20b=1&x=1&a%20b=2", "http://h/p?k;v=1&x=2", "http://h/p?a%20b=1&a+b=2&k;v=3"]
 FIXED_ARGS = [None, "", "a=1", "a=9&z=8", "b", "a=1&a=2", "x y=z+w", ["map"], ["seq"], ["map", ["a", "n"]], ["map", ["a", ["list", "x", "y"]]],
               ["map", ["a", ["list"]]], ["seq", ["a", "1"], ["a", "2"], ["b", "3"]], ["seq", ["a", "x"], ["b", "y"]], ["map", ["b", "y"], ["a", "x"]], "a=x&b=y", ["map", ["z", 5], ["a", ["float", "1.5"]]],
               ["map", ["a", True]], ["map", ["a", None]], ["map", ["a", ["inf"]]], ["map", ["a", ["nan"]]], ["seq", ["a", ["list", "x"]]],
               ["map", ["z", ["float", "0.0"]]], ["map", ["z", ["float", "-0.0"]]], ["seq", ["z", ["float", "-0.0"]], ["y", ["float", "0.0"]], ["x", 0]],
               ["map", ["a", ["float", "1.0"]], ["b", 1]], ["map", ["a", ["float", "1e+16"]], ["b", 10 ** 16]], ["map", ["a", ["float", "-1.5"]], ["b", -1]],
               ["map", ["k", ["strsub", "1&admin=1"]]], ["seq", ["k", ["strsub", "a b+c;d=é#%"]]], ["map", ["k", ["list", ["strsub", "x y"], "z"]]],
-              ["bytes"], ["other"], ["map", ["a", ["other"]]], ["seq", ["x+y", ["list"]], ["a", ["nan"]]], ["map", ["z", True], ["a", ["inf"]]], ["seq", ["a", ["nan"]], ["b", None]], ["seq", ["k&", "v="], ["k+", "v;"], ["", ""]], ["map", ["é", "日本"], ["a b", "c d"]]]
+              ["bytes"], ["other"], ["map", ["a", ["other"]]], ["seq", ["x+y", ["list"]], ["a", ["nan"]]], ["map", ["z", True], ["a", ["inf"]]], ["seq", ["a", ["nan"]], ["b", None]], ["seq", ["k&", "v="], ["k+", "v;"], ["", ""]], ["map", ["é", "日本"], ["a b", "c d"]],
+              ["map", ["a b", "n"]], ["map", ["k;v", "2"]], ["seq", ["a b", "9"]], "a%20b=7", ["map", ["k;v", ["list", "5", "6"]]], ["seq", ["k;", "8"]]]
 
 
 def run(ctx):
